@@ -81,18 +81,23 @@ matched by signature; a violation whose signature is not listed exits 1.
 
 ### 9.5 Seeded changes
 
-Three rounds, 180 changes in all, were written by sub-agents - one agent per property and round. Each agent saw only
+Four rounds, 240 changes in all, were written by sub-agents - one agent per property and round. Each agent saw only
 the property's text (statement, quantifier, code anchors) and a scratch git worktree of /repo, never /verif. Each
 change passes the repo's suite (331 tests) and comes with a demonstration script that exits 1 on the changed tree and
 0 on the unchanged one (both verified again here). Every change was applied to /repo's working tree, the property's
 quick check was run, and the change was reverted (`harness/seeded_eval.py` repeats this; nothing was ever committed
-to /repo). They are kept under `seeded/<id>/mK` (round 1), `seeded/<id>/r2mK` (round 2) and `seeded/<id>/r3mK`
-(round 3) with `patch.diff`, `demo.py` and `meta.json`; `meta.json.history` records the verdict of every evaluation.
+to /repo; the later evaluations ran in scratch worktrees through `VERIF_REPO`). They are kept under
+`seeded/<id>/mK` (round 1), `r2mK`, `r3mK` and `r4mK` with `patch.diff`, `demo.py` and `meta.json`;
+`meta.json.history` records the verdict of every evaluation. Two changes are marked `obsolete`: a later repair of
+/repo made them harmless (their own demonstration passes on the changed tree) - C08/r4m1 and C10/r3m2.
 
 * Round 1, first evaluation: 38 of 60 caught with a failing input, 3 caught only as a broken correspondence
   (`no-failing-input-found`), 19 missed. Round 2 (after the round-1 strengthening), first evaluation: 43 of 60 caught
   with a failing input, 1 only as a broken correspondence, 16 missed. Round 3 (agents told that the obvious
   one-line changes had been tried): 50 of 60 caught with a failing input at the first evaluation, 10 missed.
+  Round 4 (agents pointed at interactions of features, unusual but legal inputs, helpers outside the anchored files,
+  state carried from one request or rewrite to the next): 43 of 60 caught with a failing input, 2 only as a broken
+  correspondence, 15 missed.
 * Detection must not hang on a lucky seed: the whole set was also run with `VERIF_SEED=1` (the seed of `vp check`);
   the two changes that were caught with one seed and missed with another got a deterministic or targeted
   generator (C06 entry in front of foreign code, C14 nested expressions of 128 bytes or more).
@@ -107,14 +112,30 @@ to /repo). They are kept under `seeded/<id>/mK` (round 1), `seeded/<id>/r2mK` (r
   patch's own expressions (C04), which recorded operation belongs to which request (C01), attribute conversion and
   edge retargeting (C18), untouched expressions (C19); (c) a domain predicate that was too coarse (C03/C09 judged
   "code runs off the end" per request instead of on the final state of the block).
-* After the strengthening all 180 are caught with a failing input; the per-property lists above show each change and
+* The round-4 misses were again generator blind spots and one oracle gap: no ISA with a nop wider than a byte in
+  the byte check (C01), aux tables that are always present (C04, C10), no patch carrying aligned data (C05), no CFG
+  edge without a label (C07), no directive accounting for deletions (C08), no chain of whole-block deletions with
+  several labels (C09), scratch registers that never showed in the bytes and no second rewrite in the same process
+  (C11), powers of two missing from the constant pool (C14), no code outside every function (C16), no transfers
+  through memory, no valid request refused, no retarget combined with a symbol deletion (C18), no hidden version
+  entries (C19); and the out-of-domain filter of C03 also switched off the one clause that holds for every rewrite.
+* After the strengthening all 238 live changes are caught with a failing input; the per-property lists above show each change and
   both verdicts. What the strengthened checks (and two side remarks of seeding agents, reproduced before anything
   was done about them) found on the *unchanged* tree is in `known_findings.json`: the DT_INIT typo in
   `_can_remove_block` (repaired, d4827ab); a label at the end of a patch moved behind the bytes that follow the
   insertion point (repaired in `are_joinable`, efbce7a - the hypothesis `join_moves_no_symbol` needed was exactly
   this input); a patch calling one function twice got one return edge (repaired, 190d75d); the missing fallthrough
   edge when a batch removes a block's terminator - or appends code that does not end in one - and then inserts code
-  at that same end (recorded, C03). A false alarm of C11 on the unchanged tree (unlaid-out modules with several
+  at that same end (recorded, C03). The fourth round's agents were asked to report inputs on which the unchanged
+  tree already violates the property; every report was reproduced, judged against the property's text and then
+  either repaired, recorded with a witness the check runs, or listed in §9.6. Repaired: BlockOrdering consumed a
+  one-shot iterable twice and accepted a block twice in one call (40225f1, 90f19e7 - the `Nodup` hypothesis of
+  `ordering_insert_after` marked the spot; the model now refuses duplicates and the theorem says so); an ELF module
+  without an alignment table ignored a patch's `.align` (bf2abe1); MIPS32's temporary-label prefix was not
+  temporary for the assembler (b42451a); `.zero 0` behind an unreachable label tripped an assertion (d0ba9e3); CFI
+  directives of several empty patch blocks were merged in reverse (0ef3f24) and those of a removed empty block were
+  dropped (d9afb4f - `empty_block_keeps_all`); code inserted behind a patch that ends in data belonged to no function
+  (42a7576 - `IR.loopInsert`). Recorded with witnesses: C03 (two), C05, C08, C09, C10, C16. A false alarm of C11 on the unchanged tree (unlaid-out modules with several
   sections: patch ids follow the section order `gtirb_layout` happens to choose) was found by the clean-tree sweep
   under `VERIF_SEED=1` and removed by keeping that variation to one section; a false alarm of C03's specification
   (a return edge to the proxy that replaced a proxy-deleted return site) was found by the thorough tier and the
@@ -122,6 +143,42 @@ to /repo). They are kept under `seeded/<id>/mK` (round 1), `seeded/<id>/r2mK` (r
   ASSUMPTIONS (C05: a patch's branch-target label at the very end of its byte interval has to stay on a zero-sized
   block; C08: an insertion exactly at a `.cfi_startproc` that is keyed to the end of the preceding block is not
   judged for coverage).
+
+### 9.6 Observed on the unchanged tree, outside what the checks exercise
+
+Reported by the round-4 seeding agents (scripts reproduced here), judged genuine or arguable, and *not* turned into
+checks - each would need an engine the machinery does not have, or lies at the edge of a property's quantifier.
+They are not in `known_findings.json` because no check produces them; they are listed so that nobody takes the
+silence of the checks for a claim.
+
+* C01/C11 - `gtirb_layout.layout_module` (a dependency, called by `prepare_for_rewriting` when intervals overlap or
+  have no address) walks sets of identity-hashed nodes: when several byte intervals of a section, or several
+  sections, have to be placed, their order by address differs from run to run. The C11 check compares addresses
+  relative to the section start and generates unlaid-out modules with one section only; the C01 listing is per byte
+  interval. A repair belongs in gtirb_layout.
+* C01 - `replace_at` with a patch whose assembly text is empty leaves the replaced range in place
+  (`if not assembler_result: continue`).
+* C02/C05 - byte intervals with overlapping blocks: `edit_byte_interval` (its own TODO) moves only blocks that
+  start behind the edit, and `join_byte_intervals` starts padding behind the block with the highest offset; the
+  listing the properties speak of has no overlapping blocks, and the generators of E-modify produce none.
+* C04 - `cfiDirectives` entries keyed by a ByteInterval (the quantifier names them; ddisasm does not produce them)
+  are not moved by `edit_byte_interval`/`split_byte_interval`/`join_byte_intervals`; the model's CFI table is keyed
+  by block. Two RewritingContexts applied one after the other create the same suffixed temporary label twice
+  (`.L_loop_1`); likewise a module that already holds a symbol named like a suffixed label (C13 checks the
+  unsuffixed name only).
+* C07 - MIPS32: `BlockPosition.EXIT` lands between `jr $ra` and its delay slot (only the last instruction is taken
+  off as terminator); E-modify and the scope specification are x86-64 only.
+* C12 - `.section foo` without flags (ELF) and IA32 `callw *%ax` trip assertions; `call *foo(%rip)` to an external
+  gets a PLT attribute on its memory operand.
+* C13 - a constant assignment (`.Lc = 5`) in one chunk used in a later chunk yields a symbolic operand where the
+  concatenated text folds the constant (assignments are outside the generated vocabulary).
+* C16 - with `align_stack` the x86 prologue's `and` changes the flags even when the patch did not declare them
+  clobbered (the statement asks for restoring declared clobbers); a register named both in `clobbers_registers` and
+  `reads_registers` raises ValueError from `list.remove`.
+* C18 - MIPS32 `jal A`: capstone puts `jal` in neither the jump nor the call group, so the operand is retargeted
+  and the Call edge stays (the retarget engine is x86-64).
+* C20 - `OffsetMapping.clear()` (inherited, not among the operations the property lists) leaves empty per-element
+  dictionaries behind.
 """
 
 BEGIN = "<!-- BEGIN AS-BUILT (generated by harness/design_gen.py; edit the sources, not this part) -->"
